@@ -76,7 +76,7 @@ try:
         meta["check_runs"].append(run)
         print("%s-%s vs %s %s: exit=%d caught=%s (%.0fs)" % (cid, mn, c, tier, p.returncode, run["caught"], run["secs"]))
 finally:
-    subprocess.run("git -C /repo checkout -- . && git -C /repo reset -q && git -C /repo clean -fdq", shell=True)
+    subprocess.run("git -C /repo reset -q --hard && git -C /repo clean -fdq", shell=True)
     st = subprocess.run("git -C /repo status --porcelain", shell=True, capture_output=True, text=True).stdout.strip()
     if st:
         print("WARNING /repo not clean after undo:\n" + st)
